@@ -149,8 +149,13 @@ partial def outStr : Out → Option String
   | .closed => some "closed"
   | .corruption => some "corruption"
   | .exitNormal => some "exitNormal"
+  -- how many cancellation exceptions reach the caller, and in what nesting, is the back-end's
+  -- business (trio collapses them, asyncio nests the groups): compared as one token
+  | .exitOwn .cancelled _ => some "raised cancelledOnly"
   | .exitOwn e g => some s!"raised [{excStr e}] {if g then "grouped" else "bare"} leafgroups={if g then 1 else 0}"
-  | .exitGroup excs => some s!"raised [{", ".intercalate (excs.map excStr)}] grouped leafgroups=1"
+  | .exitGroup excs =>
+    if excs.all (fun e => match e with | .cancelled => true | _ => false) then some "raised cancelledOnly"
+    else some s!"raised [{", ".intercalate (excs.map excStr)}] grouped leafgroups=1"
   | .cur c => some s!"cur {optCtxStr c}"
   | .parent c => some s!"parent {optCtxStr c}"
   | .task t o => some s!"task {t} [{", ".intercalate (outStrs o)}]"
